@@ -188,6 +188,8 @@ pub enum Op {
     BadReload(T, u8),
     /// a failing reload because the file is gone: the old value stays, and stays reachable
     MissingReload(T, u8),
+    /// the file of a key that is not cached (any more) changes and is notified: nothing is created, rewritten or dropped
+    GhostReload(T, u8),
     /// a reload in which the destructor of the replaced value panics (tracked layouts)
     PanickyReload(T, u8),
     /// a reader holds a guard across a reload
@@ -602,6 +604,21 @@ fn run_case(c: &Case, out: &mut Outcome, flags: &mut (bool, bool, bool, bool)) {
                     st.cached.insert((*t, *n), (tok, true));
                 }
             }
+            Op::GhostReload(t, n) => {
+                if st.cached.contains_key(&(*t, *n)) || !c.hot {
+                    continue;
+                }
+                let id = format!("k{n}");
+                version += 1;
+                src.tree().put(&id, t.ext(), format!("v{version}").into_bytes(), Variant::Buffer);
+                let _ = src.send(&OwnedEntry::File(id.clone(), t.ext().to_string()));
+                cache.hot_reload();
+                cache.hot_reload();
+                if by_type!(*t, reload_id_of, &cache, &id).is_some() {
+                    out.fail("ghost-entry", format!("step {step}: ({t:?}, {id}) was not cached; after a notified change of its file and hot_reload it is"));
+                    break;
+                }
+            }
             Op::RaceLoad(t, n, threads) => {
                 let id = format!("k{n}");
                 if st.cached.contains_key(&(*t, *n)) || !matches!(t, T::HV | T::A64) {
@@ -831,6 +848,7 @@ fn op_strategy() -> impl Strategy<Value = Op> {
         6 => (t_s(), 0..NIDS).prop_map(|(t, n)| Op::Reload(t, n)),
         1 => (t_s(), 0..NIDS).prop_map(|(t, n)| Op::BadReload(t, n)),
         1 => (t_s(), 0..NIDS).prop_map(|(t, n)| Op::MissingReload(t, n)),
+        2 => (t_s(), 0..NIDS).prop_map(|(t, n)| Op::GhostReload(t, n)),
         1 => (prop_oneof![Just(T::HV), Just(T::A64)], 0..NIDS).prop_map(|(t, n)| Op::PanickyReload(t, n)),
         2 => (t_s(), 0..NIDS, 0u8..5).prop_map(|(t, n, y)| Op::GuardedReload(t, n, y)),
         2 => (t_s(), 0..NIDS, 2u8..5).prop_map(|(t, n, k)| Op::RaceLoad(t, n, k)),
@@ -845,7 +863,7 @@ impl Prop for C13 {
     }
 
     fn rule(&self) -> String {
-        "cases = histories over 3 ids x four value layouts (zero-sized, one byte, heap-owning, 64-byte aligned; all assets) of load, load_owned, get_or_insert, remove, take, clear, successful and failing reloads (undecodable file, deleted file), reloads in which the destructor of the replaced value panics, \
+        "cases = histories over 3 ids x four value layouts (zero-sized, one byte, heap-owning, 64-byte aligned; all assets) of load, load_owned, get_or_insert, remove, take, clear, successful and failing reloads (undecodable file, deleted file), notified changes of files whose asset was removed or taken, reloads in which the destructor of the replaced value panics, \
          reloads while a reader thread holds a guard, 2..4 threads loading one uncached key at the same instant (rendezvous in the loader; in half of these races one thread stores a value with get_or_insert while the others are inside the loader: that value stays), dropping owned values, and wrong-type views of cached handles; with and without a reloader; in a fifth of the cases 2..4 workers then use the AnyCache view of a LocalAssetCache (on threads iff AnyCache is Sync - decided at compile time - else sequentially). \
          Oracle after every step: the set of live tracked values equals exactly {values reachable through the cache} + {values owned by the caller} (drop ledger; counters for the untracked layouts), nothing dropped twice, nothing read after its drop, \
          content and alignment intact, racers agree on one handle and value, the value behind a live guard neither changes nor dies, take returns the stored value; untyped views answer is/downcast_ref/read().downcast true for the stored type only; \
@@ -917,7 +935,7 @@ pub fn decode(u: &mut arbitrary::Unstructured) -> arbitrary::Result<Value> {
     for _ in 0..u.int_in_range(2..=48)? {
         let t = ts[u.int_in_range(0..=3)?];
         let n = u.int_in_range(0..=NIDS - 1)?;
-        ops.push(match u.int_in_range(0..=14)? {
+        ops.push(match u.int_in_range(0..=15)? {
             0..=2 => Op::Load(t, n),
             3 => Op::LoadOwned(t, n),
             4 | 5 => Op::GetOrInsert(t, n),
@@ -928,6 +946,7 @@ pub fn decode(u: &mut arbitrary::Unstructured) -> arbitrary::Result<Value> {
             11 => Op::BadReload(t, n),
             12 => Op::DropOwned(u.arbitrary()?),
             14 => Op::MissingReload(t, n),
+            15 => Op::GhostReload(t, n),
             _ => Op::WrongTypeViews(t, n),
         });
     }
